@@ -649,6 +649,98 @@ class P:
 '''
 
 
+def assembly_locals(fn):
+    """(spelling local, number local, index of the unit_map guard, index of the value assignment) of a TIMEX assembly"""
+    guard_i = sp = None
+    for i, st in enumerate(fn.body):
+        if isinstance(st, ast.If) and isinstance(st.test, ast.Compare) and len(st.test.ops) == 1 and isinstance(st.test.ops[0], ast.NotIn) \
+                and isinstance(st.test.left, ast.Name) and ast.unparse(st.test.comparators[0]).endswith('config.unit_map') \
+                and any(isinstance(b, ast.Return) for b in st.body):
+            guard_i, sp = i, st.test.left.id
+    val_i = None
+    timex = None
+    for i, st in enumerate(fn.body):
+        if isinstance(st, ast.Assign) and isinstance(st.targets[0], ast.Attribute):
+            if st.targets[0].attr == 'future_value':
+                val_i = i
+            if st.targets[0].attr == 'timex' and isinstance(st.value, ast.JoinedStr):
+                timex = st
+    if guard_i is None or val_i is None or timex is None or val_i < guard_i:
+        return None
+    defs = {}
+    for n in ast.walk(fn):
+        t = n.targets[0] if isinstance(n, ast.Assign) and len(n.targets) == 1 else (n.target if isinstance(n, ast.AnnAssign) and n.value is not None else None)
+        if isinstance(t, ast.Name):
+            defs.setdefault(t.id, []).append(n.value)
+    cands = []
+    for p in timex.value.values:
+        if isinstance(p, ast.FormattedValue):
+            for x in ast.walk(p.value):
+                if isinstance(x, ast.Name) and x.id not in cands and x.id != 'self':
+                    txts = [ast.unparse(v) for v in defs.get(x.id, [])]
+                    if any('unit_map' in t or 'is_less_than_day' in t for t in txts) or any(isinstance(v, ast.IfExp) for v in defs.get(x.id, [])):
+                        continue
+                    # locals derived from a unit local (letter = unit[0]) are unit locals too
+                    if any(isinstance(v, ast.Subscript) and isinstance(v.value, ast.Name) and any(
+                            'unit_map' in ast.unparse(d) for d in defs.get(v.value.id, [])) for v in defs.get(x.id, [])):
+                        continue
+                    cands.append(x.id)
+    if len(cands) > 1:
+        # the number is the local that also scales the seconds value
+        in_value = {x.id for x in ast.walk(fn.body[val_i].value) if isinstance(x, ast.Name)}
+        both = [c for c in cands if c in in_value]
+        if len(both) == 1:
+            cands = both
+    num = cands[0] if len(cands) == 1 else None
+    return sp, num, guard_i, val_i
+
+
+def assembly_semantic(idx, cls, fn, consts, codes):
+    """interpret the statements between the unit_map guard and the value assignment for every unit code and N in (3, 7):
+    [(code, N, timex, value, problem or None)]"""
+    loc = assembly_locals(fn)
+    if loc is None or loc[0] is None:
+        raise AnalysisError('%s.%s: unit_map guard / TIMEX / value assignment of the assembly not found' % (cls.name, fn.name))
+    sp, num, gi, vi = loc
+    if num is None:
+        raise AnalysisError('%s.%s: the number local of the TIMEX assembly cannot be identified' % (cls.name, fn.name))
+    out = []
+    for code, secs in codes:
+        for N in (3, 7):
+            def res(node, code=code, secs=secs):
+                if isinstance(node, ast.Attribute):
+                    if isinstance(node.value, ast.Name) and node.value.id == 'Constants' and node.attr in consts:
+                        return consts[node.attr]
+                    txt = ast.unparse(node)
+                    if txt.endswith('config.unit_map'):
+                        return {'<spelling>': code}
+                    if txt.endswith('config.unit_value_map'):
+                        return {'<spelling>': secs}
+                raise Undetermined('attribute %s' % ast.unparse(node)[:40])
+            ev = MiniEval(idx, cls, res)
+            env = {sp: '<spelling>', num: N, 'result': '<result>'}
+            problem = None
+            for st in fn.body[gi + 1:vi + 1]:
+                is_out = isinstance(st, ast.Assign) and isinstance(st.targets[0], ast.Attribute) and st.targets[0].attr in ('timex', 'future_value')
+                try:
+                    ev.block([st], env)
+                except _ReturnSignal:
+                    problem = 'returns without a result'
+                    break
+                except Undetermined as e:
+                    if is_out:
+                        problem = 'cannot be evaluated (%s)' % e
+                        break
+                    if isinstance(st, (ast.Assign, ast.AnnAssign, ast.AugAssign)) and any(
+                            isinstance(x, ast.Name) and isinstance(x.ctx, ast.Store) and x.id == num for x in ast.walk(st)):
+                        continue          # the number comes from the number parser / the pattern: N stands in for it
+                    if any(isinstance(x, ast.Return) for x in ast.walk(st)):
+                        raise AnalysisError('%s.%s: guard cannot be interpreted (%s): %s' % (cls.name, fn.name, e, ast.unparse(st)[:70]))
+                    continue
+            out.append((code, N, env.get('result.timex'), env.get('result.future_value'), problem))
+    return out
+
+
 def reference_form(sp):
     t = "f\"P{('T' if self.is_less_than_day(self.config.unit_map[%s]) else '')}{num}{self.config.unit_map[%s][0]}\"" % (sp, sp)
     t = ast.unparse(ast.parse(t, mode='eval').body)
@@ -880,34 +972,33 @@ def run_base(chk, idx, consts):
     ctl = ast.parse("def is_less_than_day(source):\n    return source in ['M', 'S']\n").body[0]
     chk.control('C10.letter', not MiniEval(idx).call(ctl, ['H']))
 
-    # ---- C10.assembly
-    forms = {}
+    # ---- C10.assembly (semantic: the assembly of every copy is interpreted for every unit code)
+    codes = [(L, SEC[L]) for L in SEC]
     for name, form, ln in copies:
-        sp = form['spelling']
+        fn = bd.methods[name]
         cons = 'BaseDurationParser.%s' % name
-        if sp is None:
-            chk.bad('C10.assembly', bd.mod.path, cons, 'timex: ' + form['timex'],
-                    '%s: the TIMEX unit does not come from config.unit_map[<spelling>]: %s' % (cons, form['timex']), ln)
-            continue
-        ref = reference_form(sp)
-        diffs = [k for k in ('timex', 'value', 'past', 'guard') if form[k] != ref[k]]
-        src_ok = form['source'] is not None and ("group('unit')" in form['source'])
-        nf = 'timex=%s ; value=%s ; guard=%s ; spelling<-%s' % (form['timex'], form['value'], form['guard'], form['source'])
-        chk.judge(not diffs and src_ok, 'C10.assembly', bd.mod.path, cons, nf.replace(sp, 'SP'),
-                  '%s: assembly deviates from the reference in %s: %s'
-                  % (cons, diffs or ['spelling source'], '; '.join('%s is %s, expected %s' % (k, form[k], ref[k]) for k in diffs) or form['source']), ln)
-        forms[name] = nf.replace(sp, 'SP')
-    distinct = {}
-    for n, f in forms.items():
-        f2 = f.split(' ; spelling<-')[0]
-        distinct.setdefault(f2, []).append(n)
-    chk.judge(len(distinct) <= 1, 'C10.assembly', bd.mod.path, 'BaseDurationParser#siblings',
-              '%d copies, %d distinct normal form(s)' % (len(forms), len(distinct)),
-              'the copies of the TIMEX/seconds assembly disagree: %s' % '; '.join('%s: %s' % (','.join(v), k) for k, v in distinct.items()),
-              bd.node.lineno)
+        rows = assembly_semantic(idx, bd, fn, consts, codes)
+        wrong = []
+        for code, N, tx, val, problem in rows:
+            want_tx = 'P%s%d%s' % ('T' if code in ('H', 'M', 'S') else '', N, code[0])
+            if problem:
+                wrong.append('%s x%d: %s' % (code, N, problem))
+            elif tx != want_tx or val != N * SEC[code]:
+                wrong.append('%s x%d -> %s / %s (expected %s / %d)' % (code, N, tx, val, want_tx, N * SEC[code]))
+        chk.judge(not wrong, 'C10.assembly', bd.mod.path, cons,
+                  '%d (unit code, N) cases: P[T]N<first letter>, N x seconds' % len(rows) if not wrong else '; '.join(wrong[:4]),
+                  "%s: the TIMEX/seconds assembly is wrong for %s (%d of %d interpreted cases) - 'T' iff the unit is shorter than a day, "
+                  "suffix = first letter of the unit code, value = N x UnitValueMap" % (cons, '; '.join(wrong[:3]), len(wrong), len(rows)), ln)
+        # the textual normal form is kept as evidence only
+        sp = form['spelling']
+        if sp is not None:
+            ref = reference_form(sp)
+            diffs = [k for k in ('timex', 'value', 'past', 'guard') if form[k] != ref[k]]
+            if diffs:
+                chk.observe('%s: assembly is written differently from its siblings (%s); decided by interpretation' % (cons, ', '.join(diffs)))
     ctl = _FakeCls(ast.parse(_ASSEMBLY_CONTROL).body[0])
-    cc = assembly_copies(ctl, consts)
-    chk.control('C10.assembly', bool(cc) and cc[0][1]['value'] != reference_form(cc[0][1]['spelling'])['value'])
+    crow = assembly_semantic(idx, bd, ctl.methods['parse_x'], consts, [('MON', SEC['MON'])])
+    chk.control('C10.assembly', any(r[4] or r[3] != r[1] * SEC['MON'] for r in crow))
 
     # ---- C10.range-guard
     plain = 0
@@ -915,9 +1006,8 @@ def run_base(chk, idx, consts):
         fn = bd.methods[name]
         timex_as = [n for n in ast.walk(fn) if isinstance(n, ast.Assign) and isinstance(n.targets[0], ast.Attribute)
                     and n.targets[0].attr == 'timex' and isinstance(n.value, ast.JoinedStr)][0]
-        fvs = [p for p in timex_as.value.values if isinstance(p, ast.FormattedValue)]
-        num_name = fvs[-2].value.id if len(fvs) >= 2 and isinstance(fvs[-2].value, ast.Name) else None
-        sp = form['spelling']
+        loc = assembly_locals(fn)
+        num_name, sp = (loc[1], loc[0]) if loc else (None, None)
         cons = 'BaseDurationParser.%s' % name
         if num_name is None or sp is None:
             raise AnalysisError('%s: number / spelling locals of the TIMEX assembly not identified' % cons)
